@@ -196,6 +196,8 @@ def run(c, prog, ctx):
     c.inst("R2.with-secrets-last", "vbf = last(value, abf, inputs' triples, other outputs' triples); committed with and returned", r == ["std::result::Result::Ok{tuple{%s, %s}}" % (WTS, LAST)], "returns %s" % [x[:300] for x in r], WL.f.where(), WL.f.path)
     from .c09 import check_last
     check_last(c, prog, "R2.last-formula")
+    from .c09 import check_surjection_target
+    check_surjection_target(c, prog, "R3.surjection-target")
     VI = Fn(prog, "blind::TxOutSecrets::value_blind_inputs")
     c.inst("R2.triples", "value_blind_inputs = (value, asset_bf, value_bf)", rets(VI, False) == ["tuple{arg1.value, arg1.asset_bf, arg1.value_bf}"], "returns %s" % rets(VI, False), VI.f.where(), VI.f.path)
     TN = Fn(prog, "blind::TxOutSecrets::new")
